@@ -5,8 +5,9 @@ Open Scope string_scope.
 Inductive dop := DIns (k : bytes) | DDel (k : bytes).
 
 Inductive sop :=
-| SPut (name : runes) (stack : bytes) (c : N)      (* Put(ParseKey(name), tree {stack: c}) *)
-| SDelete (name : runes).                          (* Delete(ParseKey(name)) *)
+| SPut (name : runes) (stack : bytes) (c : N) (t : N)   (* Put(ParseKey(name), tree {stack: c}) over [t, t+10), t unix seconds *)
+| SDelete (name : runes)                                (* Delete(ParseKey(name)) *)
+| SRetain (threshold : N).                              (* DeleteDataBefore(time.Unix(threshold, 0)): a retention pass *)
 
 Inductive case :=
 (* dimension level: per dimension the Insert/Delete calls, then VerifKeys; for several argument orders
@@ -63,11 +64,38 @@ Definition check_order (sets : list (list bytes)) (mdims : list dim) (o : list n
   end.
 
 (* ---------- storage level ---------- *)
-Definition to_iop (o : sop) : iop :=
-  match o with
-  | SPut n s c => IPut (parse n) s c
-  | SDelete n => IDelete (parse n)
+(* A retention pass removes a series from the index exactly when the root of its segment tree ends at or
+   before the threshold.  The root is the smallest block of 10*10^k seconds, aligned to Go's zero time
+   (year 1 = unix -62135596800), that contains every upload since the segment was created; uploads here are
+   single 10 s slots.  This is computed from the history alone. *)
+Definition yoff : N := 62135596800.
+Fixpoint root_end_aux (fuel : nat) (d lo hi : N) : N :=
+  match fuel with
+  | O => (lo / d + 1) * d
+  | S f => if N.eqb (lo / d) (hi / d) then (lo / d + 1) * d else root_end_aux f (d * 10) lo hi
   end.
+Definition root_end_abs (ts : list N) : N :=
+  match ts with
+  | [] => 0
+  | t :: ts' => root_end_aux 16 10 (fold_left N.min ts' t + yoff) (fold_left N.max ts' t + yoff)
+  end.
+
+Definition ups_t := list (labels * N).     (* live uploads: series, start time *)
+Definition series_list (ups : ups_t) : list labels :=
+  fold_left (fun acc x => if existsb (labels_eqb (fst x)) acc then acc else (acc ++ [fst x])%list) ups [].
+Definition expired_series (T : N) (ups : ups_t) : list labels :=
+  filter (fun K => N.leb (root_end_abs (map snd (filter (fun x => labels_eqb (fst x) K) ups))) (T / 10 * 10 + yoff))
+         (series_list ups).
+
+Definition trans_step (acc : list iop * ups_t) (o : sop) : list iop * ups_t :=
+  match o with
+  | SPut n s c t => let K := parse n in ((fst acc ++ [IPut K s c])%list, (snd acc ++ [(K, t)])%list)
+  | SDelete n => let Q := parse n in
+                 ((fst acc ++ [IDelete Q])%list, filter (fun x => negb (sub_labels Q (fst x))) (snd acc))
+  | SRetain T => let ex := expired_series T (snd acc) in
+                 ((fst acc ++ map IDrop ex)%list, filter (fun x => negb (existsb (labels_eqb (fst x)) ex)) (snd acc))
+  end.
+Definition to_iops (l : list sop) : list iop := fst (fold_left trans_step l ([], [])).
 
 Definition pr_nz (p : profile) : profile := filter (fun sc => negb (N.eqb (snd sc) 0)) p.
 Definition pr_norm (p : profile) : profile := fold_left (fun acc sc => pr_add (fst sc) (snd sc) acc) p [].
@@ -104,7 +132,7 @@ Definition check_case (c : case) : verdict :=
           corr (list_eqb bl_eqb mdims keys) "d_insert/d_delete model differs from Dimension.Insert/Delete" ]
         ++ flat_map (check_order sets mdims) orders)
   | CStore sops gets keys values dims hkeys hvalues =>
-      let ops := map to_iop sops in
+      let ops := to_iops sops in
       let st := ix_run ops in
       let sig := tag_name_colon ops in
       combine_verdicts (
